@@ -18,6 +18,9 @@ for a failing case is taken by re-executing it three times outside Hypothesis.
 import base64, collections, hashlib, importlib, json, multiprocessing, os, sys, time, traceback
 
 ROOT = os.path.dirname(os.path.dirname(os.path.abspath(__file__)))
+# evidence and replay files go to /verif; development runs against scratch trees (seeded defects, author
+# worktrees) redirect them with VERIF_OUT so that committed evidence always stems from /repo itself
+OUT = os.environ.get("VERIF_OUT") or ROOT
 DEFAULT_SEED = 20261001
 
 
@@ -230,8 +233,8 @@ def write_evidence(mod, tier, seed, cov, wall, violations, extra_assumptions=())
     ev = dict(property_id=mod.ID, tier=tier, seed=seed, level="exploration", coverage=cov,
               assumptions=list(getattr(mod, "ASSUMPTIONS", [])) + list(extra_assumptions),
               wall_s=round(wall, 2), violations=violations)
-    os.makedirs(os.path.join(ROOT, "evidence"), exist_ok=True)
-    path = os.path.join(ROOT, "evidence", mod.ID + ".json")
+    os.makedirs(os.path.join(OUT, "evidence"), exist_ok=True)
+    path = os.path.join(OUT, "evidence", mod.ID + ".json")
     tmp = path + ".tmp"
     with open(tmp, "w") as f:
         json.dump(ev, f, indent=1, default=str)
@@ -240,7 +243,7 @@ def write_evidence(mod, tier, seed, cov, wall, violations, extra_assumptions=())
 
 
 def save_replay(mod, failure, seed, tier):
-    d = os.path.join(ROOT, "replays", mod.ID)
+    d = os.path.join(OUT, "replays", mod.ID)
     os.makedirs(d, exist_ok=True)
     body = dict(property=mod.ID, case=failure["case"], why=failure["why"], detail=failure.get("detail"),
                 seed=seed, tier=tier, shard=failure.get("shard"), origin=failure.get("origin"))
